@@ -1635,14 +1635,28 @@ func main() {
 				}
 			}
 			if pm := encPBMin(bm); len(pm) > 0 {
+				// what proto3-minimal cannot express comes back as absent (bit clear), the values are the same
 				wantM := make([]DMetric, len(bm))
 				for k := range bm {
-					wantM[k] = canon(bm[k])
+					n := bm[k]
+					if n.Counter != nil && *n.Counter == 0 {
+						n.Counter = nil
+					}
+					if n.Ts != nil && *n.Ts == 0 {
+						n.Ts = nil
+					}
+					if n.Value != nil && len(*n.Value) == 0 {
+						n.Value = nil
+					}
+					if n.Unique != nil && len(*n.Unique) == 0 {
+						n.Unique = nil
+					}
+					if n.Hist != nil && len(*n.Hist) == 0 {
+						n.Hist = nil
+					}
+					wantM[k] = canon(n)
 				}
-				rep, fate := x.pktCase("pbmin", pm, true)
-				if fate == "" && (rep.Err || !sameView(rep.Metrics, wantM)) {
-					o.Fail("proto3_minimal_decodes_to_same_view", o.N-1, "pbmin "+short(pm))
-				}
+				x.encCase("EPBMin", bm, pm, wantM, "FProtobuf", "proto3_minimal_decodes_to_same_metrics")
 			}
 			if i%2 == 0 {
 				t := jsonTree(b)
